@@ -12,7 +12,8 @@
    number of threads (Core/DispConc.v).  Part 3: the pre-fix SingleAssignmentDisposable is refuted
    (4 witnesses, reproduced on the old source), fix: proposed_fixes/C26-singleassignment-locked-decision.diff.
    Models are tied to /repo by harness/props/C26.py. *)
-From RxVerif Require Import Base.Prelude Core.Disposables Core.DisposablesFacts Core.DispConc Core.DispConcFacts.
+From RxVerif Require Import Base.Prelude Core.Disposables Core.DisposablesFacts Core.DispConc Core.DispConcFacts
+  Core.DispConcFacts2.
 
 (* ---- one thread: all call histories ------------------------------------------ *)
 Local Open Scope nat_scope.
@@ -308,3 +309,61 @@ Example C26_witness_single_race_fixed :
 Proof. vm_compute. split; reflexivity. Qed.
 Example C26_witness_kind_hyp : KSingle <> KMultiple /\ KSingle <> KSerial.
 Proof. split; discriminate. Qed.
+
+(* ---- never while held, at the instant of the call; exactly one assignment accepted ---- *)
+(* NOT HELD AT THE DISPOSE: whenever a scheduled step (of any thread, after any schedule) makes an item
+   that was handed over exactly once receive a dispose() call, the container holds that item neither
+   just before nor just after that step *)
+Theorem C26_composite_not_held_at_dispose :
+  forall l0 progs sched tid i,
+  let c := cc_run l0 progs sched in
+  let c' := tstep cc_start cc_act c tid in
+  cc_total i l0 progs = 1 ->
+  zdisp i (plain (c_log c')) = zdisp i (plain (c_log c)) + 1 ->
+  mem i (c_items (c_sh c)) = false /\ mem i (c_items (c_sh c')) = false.
+Proof. exact composite_conc_not_held_at_dispose. Qed.
+Print Assumptions C26_composite_not_held_at_dispose.
+
+(* EXACTLY ONE ACCEPTED: a SingleAssignmentDisposable that is never disposed, any number of threads
+   racing to assign, every schedule:
+   - at every moment nothing has been rejected while the slot is still empty;
+   - once all calls returned, if anything was assigned at all the slot holds an item;
+   - once all calls returned, an item assigned exactly once was rejected exactly once, unless it is the
+     one the slot holds, which was not rejected *)
+Theorem C26_single_exactly_one_accepted :
+  forall progs sched,
+  (forall p, In p progs -> ~ In SDispose p) ->
+  let c := sc_run KSingle progs sched in
+  (s_cur (x_s (c_sh c)) = None -> forall j, rejs j (plain (c_log c)) = 0%nat) /\
+  (quiescent c = true -> (exists i, 0 < sc_total i progs) -> s_cur (x_s (c_sh c)) <> None) /\
+  (quiescent c = true -> forall i, sc_total i progs = 1 ->
+     Z.of_nat (rejs i (plain (c_log c))) = 1 - Z.of_nat (ocnt i (s_cur (x_s (c_sh c))))).
+Proof. exact single_conc_exactly_one_accepted. Qed.
+Print Assumptions C26_single_exactly_one_accepted.
+
+(* non-vacuity: the step of thread 1 that disposes item 0 (handed over once): dispose() emptied the
+   container in the step before *)
+Example C26_witness_not_held_at_dispose :
+  let c := cc_run [0; 1]%nat [[CRemove 0%nat]; [CDispose]] [0; 1; 1]%nat in
+  let c' := tstep cc_start cc_act c 1%nat in
+  cc_total 0%nat [0; 1]%nat [[CRemove 0%nat]; [CDispose]] = 1 /\
+  zdisp 0%nat (plain (c_log c')) = zdisp 0%nat (plain (c_log c)) + 1 /\ c_items (c_sh c) = [].
+Proof. vm_compute. repeat split. Qed.
+(* three threads race to assign; thread 1 wins, the two others are rejected *)
+Example C26_witness_single_three_assigners :
+  let progs := [[SSet 1%nat]; [SSet 2%nat]; [SSet 3%nat; SGet]] in
+  let c := sc_run KSingle progs [1; 0; 2; 2]%nat in
+  (forall p, In p progs -> ~ In SDispose p) /\ quiescent c = true /\
+  sc_total 1%nat progs = 1 /\ sc_total 2%nat progs = 1 /\
+  c_log c = [(0, ORej 1); (2, ORej 3); (2, OItem (Some 2))]%nat.
+Proof.
+  split; [|vm_compute; repeat split].
+  intros p [<-|[<-|[<-|[]]]]; intros X; repeat (destruct X as [X|X]; try discriminate X); exact X.
+Qed.
+(* the hypotheses of the serial/single exactly-once theorem: an item assigned once, disposed quiescent state *)
+Example C26_witness_serial_total_hyp :
+  let progs := [[SSet 1%nat; SSet 2%nat]; [SDispose]] in
+  let c := sc_run KSerial progs [0; 0; 0; 1; 1]%nat in
+  sc_total 1%nat progs = 1 /\ quiescent c = true /\ s_disposed (x_s (c_sh c)) = true /\
+  plain (c_log c) = [ODisp 1%nat; ODisp 2%nat].
+Proof. vm_compute. repeat split. Qed.
